@@ -160,11 +160,27 @@ def impl(case):
     a = case["args"]
     fn = case["fn"]
     if fn == "line":
+        # history: the caller changed, in place, the arrays an EARLIER identical call returned (unit conversion, shifting): the values
+        # returned now must not depend on that
+        r0 = C.call(vd.line_coordinates, a[0], a[1], size=a[2], spacing=a[3], adjust=a[4], pixel_register=a[5])
+        if not C.is_err(r0) and isinstance(r0, np.ndarray) and r0.flags.writeable:
+            r0 *= -1000.0
         r = C.call(vd.line_coordinates, a[0], a[1], size=a[2], spacing=a[3], adjust=a[4], pixel_register=a[5])
         return r if C.is_err(r) else [float(v) for v in r]
     if fn == "grid":
-        r = C.call(vd.grid_coordinates, a[0], shape=a[1], spacing=a[2], adjust=a[3], pixel_register=a[4],
-                   extra_coords=a[5], meshgrid=a[6])
+        kw = dict(shape=a[1], spacing=a[2], adjust=a[3], pixel_register=a[4], extra_coords=a[5], meshgrid=a[6])
+        r0 = C.call(vd.grid_coordinates, a[0], **kw)
+        if not C.is_err(r0):
+            arrs = [v for v in r0 if isinstance(v, np.ndarray)]
+            for i in range(len(arrs)):
+                for j in range(i + 1, len(arrs)):
+                    if arrs[i].size and np.shares_memory(arrs[i], arrs[j]):
+                        return ["err", "ReturnedArraysShareMemory"]
+            for v in arrs:
+                if v.flags.writeable:
+                    v *= -1000.0
+                    v += 7.0
+        r = C.call(vd.grid_coordinates, a[0], **kw)
         return r if C.is_err(r) else [np.asarray(v).tolist() for v in r]
     if fn == "s2sp":
         r = C.call(vd.coordinates.shape_to_spacing, a[0], a[1], pixel_register=a[2])
